@@ -133,16 +133,20 @@ Proof. vm_compute. split; [reflexivity|discriminate]. Qed.
 
 Theorem omitted_comment : forall p t, rule_text p (RComment t) = [] <-> (p.(keepComments) = false \/ t = []).
 Proof. exact comment_omitted. Qed.
+Print Assumptions omitted_comment.
 Theorem omitted_unknown : forall p kw wf f raw,
   rule_text p (RUnknown kw wf f raw) <> [] -> wf = true /\ p.(keepUnknownAtRules) = true.
 Proof. exact unknown_omitted. Qed.
+Print Assumptions omitted_unknown.
 Theorem omitted_namespace : forall p t prefixed uri_used none_used,
   ns_dropped p (RNamespace t prefixed uri_used none_used) = true <->
   (p.(keepUsedNamespaceRulesOnly) = true /\ uri_used = false /\ (prefixed = true \/ none_used = false)).
 Proof. exact namespace_omitted. Qed.
+Print Assumptions omitted_namespace.
 Theorem omitted_property : forall p q,
   do_property p q <> [] -> q.(p_wf) = true /\ (p.(validOnly) = true -> q.(p_valid) = true).
 Proof. exact property_omitted. Qed.
+Print Assumptions omitted_property.
 Theorem atkeyword_spelling : forall p k d,
   (p.(defaultAtKeyword) = true -> atkeyword p (Some k) d = d) /\
   (p.(defaultAtKeyword) = false -> k <> [] -> atkeyword p (Some k) d = k) /\
